@@ -105,7 +105,7 @@ def run_rules(forest, prop, tier='quick', only=None):
         except RecursionError as ex:  # pragma: no cover
             rr.unknown = f'internal error: {type(ex).__name__}'
         except Exception as ex:  # internal error of a rule: analysis broken, never a verdict
-            rr.unknown = f'internal error: {type(ex).__name__}: {ex} @ {traceback.format_exc().strip().splitlines()[-3:]}'
+            rr.unknown = f'internal error: {type(ex).__name__}: {ex} @ {traceback.format_exc().strip().splitlines()[-(40 if os.environ.get("TB") else 3):]}'
         rr.obs = obs
         rr.wall = time.time() - t0
         results.append(rr)
